@@ -200,6 +200,25 @@ func factsC14() {
 	cg := fn(f, "CachingBucket", "cachedGetRange")
 	emitStr("cachedGetRangeGuard", "pkg/store/cache/caching_bucket.go cachedGetRange: the first test on attrs.Size (requests at or past the end go to the bucket)",
 		firstIfCond(body(cg), "attrs.Size"))
+	// Iter: the order of "adjust the verb for recursive listings" and "compute the cache key"
+	var iterOrder []string
+	if it := fn(f, "CachingBucket", "Iter"); it != nil && it.Body != nil {
+		ast.Inspect(it.Body, func(n ast.Node) bool {
+			as, ok := n.(*ast.AssignStmt)
+			if !ok || len(as.Lhs) != 1 || len(as.Rhs) != 1 {
+				return true
+			}
+			l, r := text(as.Lhs[0]), text(as.Rhs[0])
+			switch {
+			case l == "iterVerb.Verb":
+				iterOrder = append(iterOrder, "verb="+r)
+			case l == "key" && strings.HasSuffix(r, ".String()"):
+				iterOrder = append(iterOrder, "key="+r)
+			}
+			return true
+		})
+	}
+	emitList("iterKeyOrder", "pkg/store/cache/caching_bucket.go Iter: verb adjustment and key computation, in source order", iterOrder)
 	emitStr("mergeRangesCond", "pkg/store/cache/caching_bucket.go mergeRanges: when two ranges are merged",
 		firstIfCond(body(fn(f, "", "mergeRanges")), "limit"))
 	// the loop that merges until at most MaxSubRequests ranges are left: condition and step
